@@ -168,7 +168,7 @@ PROPS = {
         assumptions=["PagedResults alone in the chain in the model; chaining behind EntriesOnly is exercised only by Ldap::search-style use in other lanes"],
     ),
     "C17": dict(
-        groups=[("tls", 90, 600)],
+        groups=[("tls", 90, 600), ("setup", 40, 600)],
         gen=["settings"],
         exact_lanes=["tls"],
         rule="matrix scheme (ldap/ldaps) x StartTLS x verification disabled x connector (default / custom with the test CA) x server behaviour (StartTLS answer: success, rc 2, rc 53, rc 256, rc 4096, garbage, close after the request, close at once without reading, an unsolicited message before the request is read, another message before the response; certificate: chains to the CA, self-signed, wrong name; handshake completes or aborted; forged cleartext reply appended to the StartTLS response) "
